@@ -11,8 +11,8 @@ def single_loop(name, rel, w, T, pat, loc, locs="optimization_locations", fuel=F
     return dict(name=name, rel=rel,
                 contract="ensures r@ == hits_all(%s, %s)" % (w, h),
                 start="    proof { axiom_loc_key_model(); }",
-                after=[dict(match=r"let target_nodes", text="let ghost w = target_nodes@;")],
-                loops=[dict(match=r"^target_nodes$", binder="it",
+                after=[dict(match="@x0", text="let ghost w = $x0@;")],
+                loops=[dict(match=r"^$x0$", binder="it",
                             inv="it.seq() == w, w == %s, %s@ == hits(w, it.index@, %s)" % (w, locs, h),
                             body=body)])
 
@@ -35,9 +35,9 @@ FUNCTIONS = [
     single_loop("solidity_keccak256_optimization", O + "solidity_keccak256.rs", "w1(source_unit, Target::FunctionCall)", "set![Target::FunctionCall]",
                 "pat_keccak", "loc_keccak"),
     single_loop("unsafe_erc20_operation_vulnerability", V + "unsafe_erc20_operation.rs", "w1(source_unit, Target::MemberAccess)", "set![Target::MemberAccess]",
-                "pat_unsafe_erc20", "expr_loc", locs="vulnerability_locations"),
+                "pat_unsafe_erc20", "expr_loc", locs="$ret"),
     single_loop("floating_pragma_vulnerability", V + "floating_pragma.rs", "w1(source_unit, Target::PragmaDirective)", "set![Target::PragmaDirective]",
-                "pat_floating_pragma", "loc_pragma", locs="vulnerability_locations"),
+                "pat_floating_pragma", "loc_pragma", locs="$ret"),
     dict(name="check_for_address_zero", rel=O + "address_zero.rs",
          contract="ensures r == is_address_zero(*box_expression)",
          start="    proof { axiom_string_str_eq(); }"),
@@ -54,36 +54,36 @@ FUNCTIONS = [
     dict(name="cache_array_length_optimization", rel=O + "cache_array_length.rs",
          contract="ensures r@ == union_hits(w1(source_unit, Target::For), w1(source_unit, Target::For).len() as int, |n: Node| length_hits_of_for(n))",
          start="    proof { axiom_loc_key_model(); }",
-         after=[dict(match=r"let target_nodes", text="let ghost w = target_nodes@;"),
-                dict(match=r"let member_access_nodes", text="let ghost w2 = member_access_nodes@; let ghost base = optimization_locations@; let ghost cond0 = for_cond(w[it.index@]).unwrap();")],
-         loops=[dict(match=r"^target_nodes$", binder="it",
-                     inv="it.seq() == w, w == w1(source_unit, Target::For), optimization_locations@ =~= union_hits(w, it.index@, |n: Node| length_hits_of_for(n))",
+         after=[dict(match="@x0", text="let ghost w = $x0@;"),
+                dict(match="@x1", text="let ghost w2 = $x1@; let ghost base = $ret@; let ghost cond0 = for_cond(w[it.index@]).unwrap();")],
+         loops=[dict(match=r"^$x0$", binder="it",
+                     inv="it.seq() == w, w == w1(source_unit, Target::For), $ret@ =~= union_hits(w, it.index@, |n: Node| length_hits_of_for(n))",
                      body="proof { axiom_loc_key_model(); lemma_flt_wanted(set![Target::For], all_nodes(su_node(source_unit)), it.index@); }"),
-                dict(match=r"^member_access_nodes$", binder="it2",
-                     inv="it2.seq() == w2, w2 == w_cond(cond0), optimization_locations@ =~= base.union(hits(w2, it2.index@, |m: Node| pat_length(m), |m: Node| expr_loc(m)))",
+                dict(match=r"^$x1$", binder="it2",
+                     inv="it2.seq() == w2, w2 == w_cond(cond0), $ret@ =~= base.union(hits(w2, it2.index@, |m: Node| pat_length(m), |m: Node| expr_loc(m)))",
                      body="proof { axiom_loc_key_model(); lemma_flt_wanted(set![Target::MemberAccess], all_nodes(Node::Expression(cond0)), it2.index@); }")]),
     dict(name="divide_before_multiply_vulnerability", rel=V + "divide_before_multiply.rs",
          contract="ensures r@ == hits_all(wn(source_unit, %s), |n: Node| pat_div_before_mul(n), |n: Node| expr_loc(n))" % ts("Multiply", "AssignDivide"),
          start="    proof { axiom_loc_key_model(); }",
-         after=[dict(match=r"let target_nodes", text="let ghost w = target_nodes@;")],
-         loops=[dict(match=r"^target_nodes$", binder="it",
-                     inv="it.seq() == w, w == wn(source_unit, %s), vulnerability_locations@ == hits(w, it.index@, |n: Node| pat_div_before_mul(n), |n: Node| expr_loc(n))" % ts("Multiply", "AssignDivide"),
-                     body="proof { axiom_loc_key_model(); reveal_with_fuel(tset, 8); lemma_flt_wanted(tset(%s, 2), all_nodes(su_node(source_unit)), it.index@); } let ghost base = vulnerability_locations@;" % ts("Multiply", "AssignDivide"))],
+         after=[dict(match="@x0", text="let ghost w = $x0@;")],
+         loops=[dict(match=r"^$x0$", binder="it",
+                     inv="it.seq() == w, w == wn(source_unit, %s), $ret@ == hits(w, it.index@, |n: Node| pat_div_before_mul(n), |n: Node| expr_loc(n))" % ts("Multiply", "AssignDivide"),
+                     body="proof { axiom_loc_key_model(); reveal_with_fuel(tset, 8); lemma_flt_wanted(tset(%s, 2), all_nodes(su_node(source_unit)), it.index@); } let ghost base = $ret@;" % ts("Multiply", "AssignDivide"))],
          plain_loops=[dict(nth=0, pre="let ghost orig = curr_expression;",
-                           clauses="invariant_except_break chain_div(curr_expression) == chain_div(orig), vulnerability_locations@ == base\n    ensures vulnerability_locations@ == (if chain_div(orig) { base.insert(loc) } else { base })\n    decreases curr_expression",
+                           clauses="invariant_except_break chain_div(curr_expression) == chain_div(orig), $ret@ == base\n    ensures $ret@ == (if chain_div(orig) { base.insert(loc) } else { base })\n    decreases curr_expression",
                            body="proof { axiom_loc_key_model(); }"),
                       dict(nth=1, pre="let ghost orig = curr_expression;",
-                           clauses="invariant_except_break chain_mul(curr_expression) == chain_mul(orig), vulnerability_locations@ == base\n    ensures vulnerability_locations@ == (if chain_mul(orig) { base.insert(loc) } else { base })\n    decreases curr_expression",
+                           clauses="invariant_except_break chain_mul(curr_expression) == chain_mul(orig), $ret@ == base\n    ensures $ret@ == (if chain_mul(orig) { base.insert(loc) } else { base })\n    decreases curr_expression",
                            body="proof { axiom_loc_key_model(); }")]),
     dict(name="multiple_require_optimization", rel=O + "multiple_require.rs", attrs=["#[verifier::loop_isolation(false)]", "#[verifier::allow_complex_invariants]"],
          contract="ensures r@ == hits_all(w1(source_unit, Target::FunctionCall), |n: Node| pat_multiple_require(n), |n: Node| expr_loc(n))",
          start="    proof { axiom_loc_key_model(); }",
-         after=[dict(match=r"let target_nodes", text="let ghost w = target_nodes@;")],
-         loops=[dict(match=r"^target_nodes$", binder="it",
-                     inv="it.seq() == w, w == w1(source_unit, Target::FunctionCall), optimization_locations@ == hits(w, it.index@, |n: Node| pat_multiple_require(n), |n: Node| expr_loc(n))",
-                     body="proof { axiom_loc_key_model(); lemma_flt_wanted(set![Target::FunctionCall], all_nodes(su_node(source_unit)), it.index@); } let ghost base = optimization_locations@; let ghost cur = w[it.index@];"),
+         after=[dict(match="@x0", text="let ghost w = $x0@;")],
+         loops=[dict(match=r"^$x0$", binder="it",
+                     inv="it.seq() == w, w == w1(source_unit, Target::FunctionCall), $ret@ == hits(w, it.index@, |n: Node| pat_multiple_require(n), |n: Node| expr_loc(n))",
+                     body="proof { axiom_loc_key_model(); lemma_flt_wanted(set![Target::FunctionCall], all_nodes(su_node(source_unit)), it.index@); } let ghost base = $ret@; let ghost cur = w[it.index@];"),
                 dict(match=r"^function_call_expressions$", binder="ia", r5=True,
-                     inv="optimization_locations@ == (if any_and($s, $k) { base.insert(expr_loc(cur)) } else { base })",
+                     inv="$ret@ == (if any_and($s, $k) { base.insert(expr_loc(cur)) } else { base })",
                      body="proof { axiom_loc_key_model(); }")]),
 ]
 LEMMAS = [
